@@ -68,18 +68,18 @@ def _rotvec_to_R(w):
 
 
 def ref_builtin_distance(a6, b6, dmode):
-    """Straight-line (dmode 0) or arc distance (dmode 1: norm of the six-vector of inv(A) B) from the 6 pose floats; None where
+    """(translation, rotation angle) between two poses given by their 6 floats (the angle only for dmode 1); None where
     the relative rotation is within 1e-4 of half a turn (the library's log is unreliable there -- C01's business)."""
     a6, b6 = np.asarray(a6, float), np.asarray(b6, float)
     dp = float(np.linalg.norm(b6[:3] - a6[:3]))
     if dmode != 1:
-        return dp
+        return dp, 0.0
     E = _rotvec_to_R(a6[3:]).T @ _rotvec_to_R(b6[3:])
     v = np.array([E[2, 1] - E[1, 2], E[0, 2] - E[2, 0], E[1, 0] - E[0, 1]]) * 0.5
     ang = math.atan2(float(np.linalg.norm(v)), (float(np.trace(E)) - 1) * 0.5)
     if abs(ang - math.pi) < 1e-4:
         return None
-    return math.sqrt(dp * dp + ang * ang)
+    return dp, ang
 
 
 # --------------------------------------------------------------------------- pure call-backs (custom mode)
@@ -342,10 +342,24 @@ class RRTRun:
                 # cheapest-parent comparison is fed from this one function, so a wrong metric is consistently wrong
                 # everywhere else; it is compared here with an independent evaluation.
                 ref = ref_builtin_distance(pos6(a), pos6(b), cfg["dmode"])
-                if ref is not None and abs(fl(d) - ref) > 1e-6 * (1.0 + ref):
-                    raise Violation("T2-metric", "distance mode %d: the planner measured %.9f between %s and %s, the %s distance is %.9f" % (
-                        cfg["dmode"], fl(d), np.round(pos6(a), 4).tolist(), np.round(pos6(b), 4).tolist(),
-                        "arc" if cfg["dmode"] == 1 else "straight-line", ref), {"dmode": cfg["dmode"]})
+                if ref is not None:
+                    dp, ang = ref
+                    v = fl(d)
+                    if cfg["dmode"] != 1:
+                        bad = abs(v - dp) > 1e-6 * (1.0 + dp)
+                        want = "the straight-line distance is %.9f" % dp
+                    else:
+                        # Mode 1 measures translation AND rotation.  The statement does not fix the formula (this tree:
+                        # sqrt(|dp|^2 + angle^2); the length of the connecting screw motion, up to pi/2 x longer in its linear
+                        # part, is an equally consistent choice -- review 2, A7), so only what every such measure satisfies is
+                        # demanded: at least the translation, at least the rotation, at most 1.6 x their root sum of squares.
+                        rss = math.sqrt(dp * dp + ang * ang)
+                        bad = v < max(dp, ang) * (1 - 1e-6) - 1e-9 or v > 1.6 * rss + 1e-9
+                        want = "the poses are %.9f apart and turned by %.9f rad (an arc distance lies in [%.9f, %.9f])" % (
+                            dp, ang, max(dp, ang), 1.6 * rss)
+                    if bad or not math.isfinite(v):
+                        raise Violation("T2-metric", "distance mode %d: the planner measured %.9f between %s and %s; %s" % (
+                            cfg["dmode"], v, np.round(pos6(a), 4).tolist(), np.round(pos6(b), 4).tolist(), want), {"dmode": cfg["dmode"]})
                 return d
 
             def w_coll(a, b):
